@@ -128,6 +128,9 @@ class ModbusBaseRequestHandler(asyncio.BaseProtocol):
                 data = await self._recv_()  # this is an asyncio.Queue await, it will never fail
                 if isinstance(data, tuple):
                     data, *addr = data  # addr is populated when talking over UDP
+                    # a datagram is self contained: never carry what is left
+                    # of one over into the framing of the next
+                    reset_frame = True
                 else:
                     addr = (None,) # empty tuple
 
